@@ -8,7 +8,8 @@ What is translated (everything else raises `Unsupported`):
   (`return x[key]`, `try: return x[k1] except KeyError: return x[k2]`,
   `return x`) -> functions into `option Q` (None = KeyError escapes).
 * every `ham_*_from_edges`: the coordination-counting loop
-  (`d[k] = d.setdefault(k', c0) + c1` statements) as a `fold_left` over the
+  (`d[k] = d.setdefault(k', c0) + c1` / `d[k] = d.get(k', c0) + c1` statements,
+  possibly inside `for x in (a, b):`, unrolled) as a `fold_left` over the
   edge list; the factory bindings; the dict comprehension building the keyword
   arguments of the local builder for each edge (a record per builder) and the
   dict keyed by `(cooa, coob)` (later duplicates overwrite, as in Python).
@@ -150,29 +151,51 @@ def site_expr(n, sites):
 
 
 def gen_coord_loop(loop, dname, edges_name):
-    """for a, b in edges:  d[k] = d.setdefault(k', c0) + c1 ..."""
+    """for a, b in edges:  d[k] = d.setdefault(k', c0) + c1 ...
+    Also accepted: `d[k] = d.get(k', c0) + c1` (no insertion before the store), and an inner
+    `for x in (a, b): <such statements>` over a literal tuple of the two loop variables, which is
+    unrolled (the statements only store into d, so the loop is its body once per element, in order)."""
     need(isinstance(loop, ast.For) and not loop.orelse, 'coordination loop')
     need(is_name(loop.iter, edges_name), 'coordination loop must iterate over %s' % edges_name)
     tg = loop.target
     need(isinstance(tg, ast.Tuple) and len(tg.elts) == 2 and all(is_name(e) for e in tg.elts), 'loop target')
     sites = [e.id for e in tg.elts]
-    need(len(set(sites)) == 2 and dname not in sites, 'loop target names')
-    body = ''
-    for s in strip_doc(loop.body):
-        need(isinstance(s, ast.Assign) and len(s.targets) == 1, 'coordination loop statement')
-        t = s.targets[0]
-        need(isinstance(t, ast.Subscript) and is_name(t.value, dname), 'coordination loop target')
-        k = site_expr(t.slice, sites)
-        v = s.value
-        need(isinstance(v, ast.BinOp) and isinstance(v.op, ast.Add), 'coordination increment')
-        c = v.left
-        need(isinstance(c, ast.Call) and isinstance(c.func, ast.Attribute) and c.func.attr == 'setdefault'
-             and is_name(c.func.value, dname) and len(c.args) == 2 and not c.keywords, 'setdefault call')
-        k2 = site_expr(c.args[0], sites)
-        need(isinstance(c.args[1], ast.Constant) and type(c.args[1].value) is int, 'setdefault default')
-        need(isinstance(v.right, ast.Constant) and type(v.right.value) is int, 'increment constant')
-        body += ('let %s := (let \'(sd_v, sd_d) := setdefault seqb %s (%d)%%Z %s in dset seqb %s (Z.add sd_v (%d)%%Z) sd_d) in\n       '
-                 % (dname, k2, c.args[1].value, dname, k, v.right.value))
+    need(len(set(sites)) == 2 and dname not in sites and edges_name not in sites, 'loop target names')
+
+    def stmts(body, sub):
+        """sub: python name usable as a site expression -> the outer loop variable it stands for"""
+        out = ''
+        for s in strip_doc(body):
+            if isinstance(s, ast.For):
+                need(not s.orelse and is_name(s.target) and s.target.id not in sub
+                     and s.target.id not in (dname, edges_name), 'inner coordination loop target')
+                need(isinstance(s.iter, ast.Tuple) and s.iter.elts, 'inner coordination loop must run over a literal tuple')
+                for e in s.iter.elts:
+                    sub2 = dict(sub)
+                    sub2[s.target.id] = sub[site_expr(e, list(sub))]
+                    out += stmts(s.body, sub2)
+                continue
+            need(isinstance(s, ast.Assign) and len(s.targets) == 1, 'coordination loop statement')
+            t = s.targets[0]
+            need(isinstance(t, ast.Subscript) and is_name(t.value, dname), 'coordination loop target')
+            k = sub[site_expr(t.slice, list(sub))]
+            v = s.value
+            need(isinstance(v, ast.BinOp) and isinstance(v.op, ast.Add), 'coordination increment')
+            c = v.left
+            need(isinstance(c, ast.Call) and isinstance(c.func, ast.Attribute) and c.func.attr in ('setdefault', 'get')
+                 and is_name(c.func.value, dname) and len(c.args) == 2 and not c.keywords, 'setdefault call')
+            k2 = sub[site_expr(c.args[0], list(sub))]
+            need(isinstance(c.args[1], ast.Constant) and type(c.args[1].value) is int, 'setdefault default')
+            need(isinstance(v.right, ast.Constant) and type(v.right.value) is int, 'increment constant')
+            if c.func.attr == 'setdefault':
+                out += ('let %s := (let \'(sd_v, sd_d) := setdefault seqb %s (%d)%%Z %s in dset seqb %s (Z.add sd_v (%d)%%Z) sd_d) in\n       '
+                        % (dname, k2, c.args[1].value, dname, k, v.right.value))
+            else:
+                out += ('let %s := (dset seqb %s (Z.add (match lookup seqb %s %s with Some gt_v => gt_v | None => (%d)%%Z end) (%d)%%Z) %s) in\n       '
+                        % (dname, k, k2, dname, c.args[1].value, v.right.value, dname))
+        return out
+
+    body = stmts(loop.body, {x: x for x in sites})
     return "fold_left (fun %s '(%s, %s) =>\n       %s%s) %s []" % (dname, sites[0], sites[1], body, dname, edges_name)
 
 
